@@ -27,7 +27,7 @@ THEOREMS = {
     ],
 }
 
-GEN = dict(inplace=True, p_inplace=0.25, p_view=0.25, p_fail=0.22, p_const=0.12, n_stmts=10)
+GEN = dict(inplace=True, p_inplace=0.25, p_view=0.25, p_fail=0.22, p_const=0.12, n_stmts=10, ro_leaves=True)
 
 
 def snapshot(ex):
@@ -141,7 +141,8 @@ def oracle(prog, idx):
     if stale_msg:
         fails.append(("failed-inplace-discards-stale-links!", stale_msg))
     # locks: after everything is dropped no array may remain locked / counted
-    arrs = [t.data for t in ex.v.values()]
+    ro = {st[1] for st in prog if st[0] == "leaf" and len(st) > 5 and st[5] == "RO"}  # natively read-only: stays so
+    arrs = [t.data for n, t in ex.v.items() if n not in ro]
     del ex, ex2
     gc.collect()
     for a in arrs:
